@@ -242,7 +242,7 @@ func matchWire(out []byte, exp []expOut) string {
 
 func TestC08_CloseAndPingStateMachine(t *testing.T) {
 	rec := evid.For("C08")
-	rec.SetRule("rapid histories (<=25 steps) over peer events {data (1-2 fragments), ping, pong, close(valid code+reason), close(empty), close(1-byte | invalid code | bad UTF-8 reason), framing violation, transport EOF, transport error, truncated frame} and local calls {NextFrame, AsyncNextFrame, NextMessage, AsyncNextMessage, Write, AsyncWrite, WriteFrame, AsyncWriteFrame, Flush, AsyncFlush, Close, AsyncClose} on a scripted transport; reference RFC 6455 endpoint model predicts every read result, every refused/accepted write, the allowed State() set and the exact outbound frame list (parsed by an independent parser): one Pong per Ping while open with identical payload in order, one Close per connection echoing the code / 1000 / 1002, nothing but optional pongs after it; non-trivial = the history reaches closing-by-us or closed-by-peer and has >=1 event after the transition, OR >=2 pings answered while open with application frames written in between; distinct = hash of the history")
+	rec.SetRule("rapid histories (<=25 steps) over peer events {data (1-2 fragments), ping, pong, close(valid code+reason), close(empty), close(1-byte | invalid code | bad UTF-8 reason), framing violation, transport EOF, transport error, truncated frame} and local calls {NextFrame, AsyncNextFrame, NextMessage, AsyncNextMessage, Write, AsyncWrite, WriteFrame, AsyncWriteFrame, Flush, AsyncFlush, Close, AsyncClose} on a scripted transport; reference RFC 6455 endpoint model predicts every read result, every refused/accepted write, the allowed State() set and the exact outbound frame list (parsed by an independent parser): one Pong per Ping while open with identical payload in order, one Close per connection echoing the code / 1000 / 1002, nothing but optional pongs after it; non-trivial = the history reaches closing-by-us or closed-by-peer and has >=1 event after the transition, OR >=2 pings answered while open with application frames written in between; TestC08_CloseReplyCodes: a peer Close sent to an open stream with status codes swept over 0..65535 (weighted to 999..1016, 2999..3001, 4999..5001; 1014 left out) in the forms code / code+reason / code+invalid UTF-8 / empty / one byte, read through each API: exactly one Close reply with the echoed code when that code may appear on the wire, 1000 for the empty payload, 1002 otherwise, then State()!=active and Write refused; non-trivial there = a 1002 reply or a reserved code (1004/1005/1006/1015); distinct = hash of the history")
 	rec.Assume("the control callback performs no stream calls; one read and one write outstanding at a time; after an injected non-EOF transport error the history stops (behaviour unspecified by the property)")
 	doubleCloseKnown := known.Listed("C08", "second-close-after-violation")
 	vt.CheckSteps(t, 2000, 18, func(t *rapid.T) {
@@ -365,7 +365,7 @@ func TestC08_CloseAndPingStateMachine(t *testing.T) {
 				case 0:
 					p = []byte{0x03}
 				case 1:
-					code := rapid.SampledFrom([]uint16{0, 999, 1004, 1005, 1006, 1014, 1015, 1016, 2999, 5000, 65535}).Draw(t, "badcode")
+					code := rapid.SampledFrom([]uint16{0, 999, 1004, 1005, 1005, 1006, 1006, 1015, 1015, 1016, 2999, 5000, 65535}).Draw(t, "badcode")
 					p = rfc6455.ClosePayload(code, "x")
 				default:
 					p = append(rfc6455.ClosePayload(1000, ""), 0xff, 0xfe, 0xc0)
@@ -716,4 +716,97 @@ func TestC08_ProbeSecondClose(t *testing.T) {
 		t.Fatalf("violation after our Close not reported")
 	}
 	known.Probe(t, "C08", "second-close-after-violation", closes > 1, fmt.Sprintf("Close() then a frame with RSV1 set: %d Close frames on the wire (Close(1000) then Close(1002))", closes))
+}
+
+// TestC08_CloseReplyCodes sweeps the status code (and payload form) of a Close that the peer sends to an open stream:
+// the reply echoes a code that may appear on the wire, is 1000 for an empty payload and 1002 for everything else.
+func TestC08_CloseReplyCodes(t *testing.T) {
+	rec := evid.For("C08")
+	special := []int{0, 1, 999, 1000, 1001, 1002, 1003, 1004, 1005, 1006, 1007, 1008, 1009, 1010, 1011, 1012, 1013, 1015, 1016, 1100, 2000, 2999, 3000, 3001, 4000, 4999, 5000, 5001, 32768, 65535}
+	onWire := func(c int) bool {
+		switch {
+		case c >= 1000 && c <= 1003, c >= 1007 && c <= 1013, c >= 3000 && c <= 4999:
+			return true
+		}
+		return false
+	}
+	vt.Check(t, 1500, func(t *rapid.T) {
+		form := rapid.SampledFrom([]string{"code", "code", "code", "code+reason", "code+reason", "code+bad-utf8", "empty", "one-byte"}).Draw(t, "form")
+		code := rapid.OneOf(rapid.SampledFrom(special), rapid.SampledFrom(special), rapid.IntRange(0, 5100), rapid.IntRange(0, 65535)).Draw(t, "code")
+		if code == 1014 {
+			code = 1013 // registered after RFC 6455; the property does not say which way it goes
+		}
+		reason := ""
+		var payload []byte
+		wantCode, wantEcho := 1002, false
+		switch form {
+		case "empty":
+			wantCode = 1000
+		case "one-byte":
+			payload = []byte{byte(code)}
+		case "code", "code+reason":
+			if form == "code+reason" {
+				reason = rapid.SampledFrom([]string{"x", "bye bye", "größe", strings.Repeat("r", 123)}).Draw(t, "reason")
+			}
+			payload = rfc6455.ClosePayload(uint16(code), reason)
+			if onWire(code) {
+				wantCode, wantEcho = code, true
+			}
+		case "code+bad-utf8":
+			payload = append(rfc6455.ClosePayload(uint16(code), ""), 0xff, 0xfe, 0xc0)
+		}
+		ms := memstream.New(nil)
+		s, err := newAttached(4096, ms)
+		if err != nil {
+			t.Fatalf("attach: %v", err)
+		}
+		pre := rapid.IntRange(0, 2).Draw(t, "pre")
+		for i := 0; i < pre; i++ { // some ordinary traffic first
+			ms.Feed(rfc6455.Encode(rfc6455.Frame{Fin: true, Opcode: rfc6455.OpBinary, Payload: []byte{byte(i)}, LenBytes: -1}))
+			if _, err := s.NextFrame(); err != nil {
+				t.Fatalf("reading a data frame: %v", err)
+			}
+		}
+		ms.Feed(rfc6455.Encode(rfc6455.Frame{Fin: true, Opcode: rfc6455.OpClose, Payload: payload, LenBytes: -1}))
+		api := rapid.SampledFrom(readAPIs).Draw(t, "api")
+		buf := make([]byte, 4096)
+		switch api {
+		case "NextFrame":
+			_, _ = s.NextFrame()
+		case "AsyncNextFrame":
+			s.AsyncNextFrame(func(error, websocket.Frame) {})
+		case "NextMessage":
+			_, _, _ = s.NextMessage(buf)
+		default:
+			s.AsyncNextMessage(buf, func(error, int, websocket.MessageType) {})
+		}
+		ms.DeliverAll(1000)
+		_ = s.Flush()
+		ms.DeliverAll(1000)
+		desc := fmt.Sprintf("peer Close form=%s code=%d reason=%dB via %s", form, code, len(reason), api)
+		frames, rest := rfc6455.ParseAll(ms.Out)
+		if len(rest) != 0 || len(frames) != 1 || frames[0].Opcode != rfc6455.OpClose {
+			t.Fatalf("%s: the client wrote %d frames (+%d stray bytes) %v, want exactly one Close", desc, len(frames), len(rest), frames)
+		}
+		got := frames[0].Payload
+		if len(got) < 2 {
+			t.Fatalf("%s: the Close reply carries a %d-byte payload, want status %d", desc, len(got), wantCode)
+		}
+		if gc := int(got[0])<<8 | int(got[1]); gc != wantCode {
+			t.Fatalf("%s: the client answered Close(%d), want Close(%d)", desc, gc, wantCode)
+		}
+		_ = wantEcho
+		if st := s.State(); st == websocket.StateActive {
+			t.Fatalf("%s: State() is still active after the peer's Close", desc)
+		}
+		if err := s.Write([]byte("late"), websocket.TypeText); err == nil {
+			t.Fatalf("%s: Write accepted after the peer's Close", desc)
+		}
+		cls := []string{"close-reply-" + form}
+		reserved := code == 1004 || code == 1005 || code == 1006 || code == 1015
+		if reserved {
+			cls = append(cls, "reserved-status-code-on-the-wire")
+		}
+		rec.Case(fmt.Sprintf("closereply|%s|%d|%d|%s|%d", form, code, len(reason), api, pre), wantCode == 1002 || reserved, cls, map[string]any{"case": desc, "want": wantCode})
+	})
 }
